@@ -80,6 +80,25 @@ theorem int_text_is_canonical (v : Int) :
     CastSpec.canonicalDecimal (IntText.formatInt v) = some v :=
   IntText.canonicalDecimal_formatInt v
 
+/-- Two different integers never render as the same text, whatever their types: the text (and the
+    json.Number) of a value determines the value — for every pair of values of the ten types. -/
+theorem int_text_distinguishes_values (ext : Ext) (t u : IntTy) (v w : Int) (hv : t.inRange v)
+    (hw : u.inRange w) (s : Bytes)
+    (h1 : castNamed genTables ext "ToString" (.int t v) = .ok (.str s))
+    (h2 : castNamed genTables ext "ToString" (.int u w) = .ok (.str s)) : v = w := by
+  rw [toString_int ext t v hv] at h1
+  rw [toString_int ext u w hw] at h2
+  injection h1 with h1; injection h1 with h1
+  injection h2 with h2; injection h2 with h2
+  exact IntText.formatInt_injective (h1.trans h2.symm)
+
+/-- Conversely the canonical decimal literal of a value is unique: a text that `canonicalDecimal`
+    reads as `v` IS the text the casts write for `v` (no second spelling reads back silently as the
+    same value under the canonical reader). -/
+theorem canonical_text_is_unique (s : Bytes) (v : Int) :
+    CastSpec.canonicalDecimal s = some v ↔ s = IntText.formatInt v :=
+  IntText.canonicalDecimal_iff s v
+
 /-- … and a JSON number token (the scanner of Model.JsonRead consumes exactly it). -/
 theorem int_text_is_json_number (v : Int) :
     Json.scanNumber (IntText.formatInt v) = some (IntText.formatInt v, []) :=
